@@ -510,9 +510,17 @@ impl Node {
     }
 
     pub fn make_reference(&self) -> ExternalReference {
+        #[cfg(edp_rs_verif)]
+        edp_client::verif_hooks::point("ref:fetch_add_0");
         let id0 = self.reference_counter.fetch_add(1, Ordering::SeqCst);
+        #[cfg(edp_rs_verif)]
+        edp_client::verif_hooks::point("ref:fetch_add_1");
         let id1 = self.reference_counter.fetch_add(1, Ordering::SeqCst);
+        #[cfg(edp_rs_verif)]
+        edp_client::verif_hooks::point("ref:fetch_add_2");
         let id2 = self.reference_counter.fetch_add(1, Ordering::SeqCst);
+        #[cfg(edp_rs_verif)]
+        edp_client::verif_hooks::point("ref:load_creation");
         ExternalReference::new(
             self.name.clone(),
             self.creation.load(Ordering::SeqCst),
